@@ -24,9 +24,17 @@ func c11Opts(t *sim.Tape) gen.PSOpts {
 }
 
 // sweepProgram checks one program at every interruption point.
-func sweepProgram(c *sim.RunCtx, src []byte, wellBehaved bool, gaps []int, nontrivial bool) *sim.Outcome {
+func sweepProgram(c *sim.RunCtx, src []byte, wellBehaved bool, gaps []int, nontrivial bool) (out *sim.Outcome) {
 	t := c.T
 	st := c.St
+	// a program that makes the interpreter panic is an input problem (property
+	// C01, not claimed by this technique), whatever the budget: skip it
+	defer func() {
+		if p := recover(); p != nil {
+			st.Inc("skipped_panicking_programs(C01)")
+			out = nil
+		}
+	}()
 	// reference: large safety budget, everything in one read
 	ref := runPS(newInterp(c11Big), src, gen.RefSchedule(), nil, sim.Fault{}, nil)
 	T := ref.In.NumOps
@@ -258,7 +266,7 @@ var limitShapes = []limitShape{
 	{"dict-2^31", "2147483647 dict", []string{"limitcheck"}, false, ""},
 	{"array-loop-2^31", "{ 2147483647 array } loop", []string{"limitcheck"}, false, ""},
 	{"matrix-loop", "{ matrix } loop", []string{"stackoverflow"}, false, ""},
-	{"dict-put-growth", "/d 1 dict def 0 1 200000 { d exch dup put } for d length 0 eq", []string{"", "dictfull", "limitcheck"}, true, ""},
+	{"dict-put-growth", "/d 1 dict def [ /a /b /c /d /e /f /g /h ] { d exch 1 put } forall 0 1 100000 { pop d /k 1 put } for d length", []string{""}, true, ""},
 	{"string-loop-64k", "{ 65535 string } loop", []string{"stackoverflow", "limitcheck", "VMerror"}, true, ""},
 	{"array-loop-64k", "{ 60000 array } loop", []string{"stackoverflow", "limitcheck", "VMerror"}, true, ""},
 	{"loop-push-bound-body", "{ 1 } bind loop", []string{"stackoverflow"}, false, ""},
@@ -304,7 +312,7 @@ const (
 
 // C11 builds the check for property C11.
 func C11() *sim.Check {
-	sweep := &sim.Batch{Name: "sweep", Quick: 6000, Thorough: 150000}
+	sweep := &sim.Batch{Name: "sweep", Quick: 6000, Thorough: 600000}
 	sweep.Run = func(c *sim.RunCtx) *sim.Outcome {
 		t := c.T
 		o := c11Opts(t)
@@ -545,9 +553,15 @@ func C11() *sim.Check {
 
 	// start check under a history: first call fails the check / a read fault
 	// arrives inside the two-byte peek
-	startH := &sim.Batch{Name: "startcheck-history", Quick: 20000, Thorough: 400000}
-	startH.Run = func(c *sim.RunCtx) *sim.Outcome {
+	startH := &sim.Batch{Name: "startcheck-history", Quick: 20000, Thorough: 1000000}
+	startH.Run = func(c *sim.RunCtx) (out *sim.Outcome) {
 		t := c.T
+		defer func() {
+			if p := recover(); p != nil {
+				c.St.Inc("skipped_panicking_programs(C01)")
+				out = nil
+			}
+		}()
 		p := gen.GenPS(t, gen.PSOpts{MaxTokens: 20, DSC: true, PlainLex: true})
 		var src []byte
 		hasHeader := t.Bool(2, 3)
